@@ -7,8 +7,9 @@
 # trees; after EVERY call the dictionaries of the tree are dumped and compared (a) structurally with the
 # extracted model, (b) result and content with the extracted sorted map, (c) with the extracted validity
 # checker (keys ascending, /Limits exact, no /Limits on the root, no empty non-root node, size bound).
-import bisect, itertools, json, os, re
+import bisect, itertools, json, os, re, sys
 import common
+import c18_names
 
 ASSUMPTIONS = [
     "values are integers (the tree code never looks into values beyond non-null)",
@@ -379,9 +380,14 @@ def make_case(kc, t, shape, length, profile_seq, allow_quirks, every=1):
 def lines_of(case):
     ops = ";".join(case["ops"]) or "-"
     ev = (" %d" % case["every"]) if case.get("every", 1) > 1 else ""
+    # kind "nameraw" (c18_names.py): the model runs on the stored strings; specification and validity checker see texts
     return ("nn %s %d %s %s%s" % (case["kind"], case["t"], case["init_drv"], ops, ev),
             "nn %s %d %s %s%s" % (case["kind"], case["t"], case["init_model"], ops, ev),
-            "nnspec %s %s %s" % (case["kind"], case["init_model"], ops))
+            "nnspec %s %s %s" % (spec_kind(case["kind"]), case.get("init_spec", case["init_model"]), ops))
+
+
+def spec_kind(kind):
+    return "name" if kind == "nameraw" else kind
 
 
 # ------------------------------------------------------------------ evaluation
@@ -466,7 +472,7 @@ def evaluate(cases, drv, runner, shards=4):
     impl = [ERR_RE.sub("err", o) for o in common.run_lines(drv, [l[0] for l in L], shards=shards)]
     model = common.run_lines(runner, [l[1] for l in L], shards=shards)
     spec = common.run_lines(runner, [l[2] for l in L], shards=shards)
-    wf = common.run_lines(runner, ["nnwf %s %d %s" % (c["kind"], c["t"], o) for c, o in zip(cases, impl)], shards=shards)
+    wf = common.run_lines(runner, ["nnwf %s %d %s" % (spec_kind(c["kind"]), c["t"], o) for c, o in zip(cases, impl)], shards=shards)
     return impl, model, spec, wf
 
 
@@ -1326,6 +1332,8 @@ def run(chk):
     part_random(chk, drv, runner)
     part_large(chk, drv, runner)
     part_repair(chk, drv, runner)
+    c18_names.part_namecmp(chk, drv, runner)
+    c18_names.part_nameraw(chk, drv, runner, sys.modules[__name__])
     part_attach(chk)
     part_attach_api(chk, drv, runner)
 
